@@ -632,18 +632,27 @@ func (u *Unit) callByContract(st *State, fr *Frame, in *ssa.Call, fn *ssa.Functi
 	}
 	// havoc the modifies set
 	for _, mi := range ct.ModifiesIdx {
-		switch p := args[mi].(type) {
+		marg := args[mi]
+		mtype := fn.Params[mi].Type()
+		if iv, ok := marg.(IfaceV); ok && iv.Typ != nil { // interface holding a pointer: the pointee is modified
+			if _, isPtr := iv.Typ.Underlying().(*types.Pointer); isPtr {
+				marg, mtype = iv.V, iv.Typ
+			}
+		}
+		switch p := marg.(type) {
 		case PtrV:
 			if p.Obj == nil {
 				u.require(st, fr, False, "nil-deref", in)
 				return nil, true
 			}
-			t := fn.Params[mi].Type().Underlying().(*types.Pointer).Elem()
+			t := mtype.Underlying().(*types.Pointer).Elem()
 			if !p.Obj.fresh && !u.modRecv[p.Obj] {
 				u.frameViolation(st, fr, in)
 			}
+			oldv := getPath(st.objs[p.Obj], p.Path)
 			nv := u.havoc(st, t, fn.Name()+".mod")
 			markFresh(u, st, nv) // what the callee stores into *p it allocated itself or got from its arguments
+			nv = u.applyKeeps(st, ct, ct.ParamNames[mi], t, oldv, nv)
 			st.objs[p.Obj] = setPath(st.objs[p.Obj], p.Path, nv)
 		case ElemPtr:
 			if p.Nil != nil && !u.require(st, fr, Not(p.Nil), "nil-deref", in) {
@@ -769,6 +778,29 @@ func (u *Unit) callByContract(st *State, fr *Frame, in *ssa.Call, fn *ssa.Functi
 					ret = v
 				}
 				break
+			}
+		}
+	}
+	// `sameSlice(result.f, E)`: the result component is E's array at E's offset and length
+	for _, cl := range ct.Ensures {
+		if !cl.visible(u.prop) {
+			continue
+		}
+		for _, ra := range cl.resultAliases() {
+			env := u.paramEnv(st, fn, args, entry)
+			sv, ok := env.eval(cl, ra.rhs).(SliceV)
+			if !ok {
+				continue
+			}
+			cp := Fresh("alias.cap", SortInt)
+			st.assume(And(IntLe(sv.Len, cp), IntLe(cp, sv.Cap)))
+			nv := SliceV{sv.R, sv.Off, sv.Len, cp}
+			if tv, isT := ret.(TupleV); isT {
+				nt := append(TupleV(nil), tv...)
+				nt[ra.res] = setPath(nt[ra.res], ra.path, nv)
+				ret = nt
+			} else {
+				ret = setPath(ret, ra.path, nv)
 			}
 		}
 	}
@@ -943,4 +975,38 @@ func alwaysTrue(fn *ssa.Function, v ssa.Value) bool {
 		}
 	}
 	return n > 0
+}
+
+// applyKeeps: fields declared `keeps` hold a re-slice of the array they held before the call.
+func (u *Unit) applyKeeps(st *State, ct *Contract, pname string, t types.Type, oldv, nv Value) Value {
+	stt, ok := t.Underlying().(*types.Struct)
+	if !ok {
+		return nv
+	}
+	osv, ok1 := oldv.(StructV)
+	nsv, ok2 := nv.(StructV)
+	if !ok1 || !ok2 {
+		return nv
+	}
+	for _, k := range ct.Keeps {
+		if !strings.HasPrefix(k, pname+".") {
+			continue
+		}
+		fname := strings.TrimPrefix(k, pname+".")
+		for i := 0; i < stt.NumFields(); i++ {
+			if stt.Field(i).Name() != fname {
+				continue
+			}
+			osl, ok := osv.F[i].(SliceV)
+			if !ok || osl.R == nil {
+				continue
+			}
+			off, ln, cp := Fresh(k+".off", SortInt), Fresh(k+".len", SortInt), Fresh(k+".cap", SortInt)
+			st.assume(And(IntLe(osl.Off, off), IntLe(IntK(0), ln), IntLe(ln, cp), Eq(IntAdd(off, cp), IntAdd(osl.Off, osl.Cap))))
+			nf := append([]Value(nil), nsv.F...)
+			nf[i] = SliceV{osl.R, off, ln, cp}
+			nsv = StructV{nf}
+		}
+	}
+	return nsv
 }
